@@ -55,6 +55,9 @@ pub enum Action {
     /// a write transaction whose commit is made to fail at its `call`-th I/O call (EIO); used with
     /// small `call` values, i.e. before anything reached the header
     TxFail { ops: Vec<OpSpec>, call: u64 },
+    /// a write transaction during which (after its ops, before it ends) a long-lived reader is
+    /// opened on the same thread; the reader must show the state committed before this transaction
+    TxReaderInside { ops: Vec<OpSpec>, commit: bool },
     /// close the handle and open the file again
     Reopen,
     /// open a long-lived reader (kept until closed)
@@ -67,6 +70,7 @@ impl Action {
     pub fn to_json(&self) -> Value {
         match self {
             Action::Tx { ops, commit } => json!({"tx": ops.iter().map(|o| o.to_json()).collect::<Vec<_>>(), "end": if *commit { "commit" } else { "drop" }}),
+            Action::TxReaderInside { ops, commit } => json!({"tx": ops.iter().map(|o| o.to_json()).collect::<Vec<_>>(), "end": if *commit { "commit" } else { "drop" }, "reader_opened_inside": true}),
             Action::RoTx { ops } => json!({"rotx": ops.iter().map(|o| o.to_json()).collect::<Vec<_>>()}),
             Action::RoCommit => json!("ro-commit"),
             Action::TxFail { ops, call } => json!({"txfail": ops.iter().map(|o| o.to_json()).collect::<Vec<_>>(), "failing_io_call": call}),
@@ -83,6 +87,9 @@ impl Action {
                 "ro-commit" => Action::RoCommit,
                 _ => panic!("unknown action {}", s),
             };
+        }
+        if let (Some(ops), Some(true)) = (v.get("tx"), v.get("reader_opened_inside").and_then(|b| b.as_bool())) {
+            return Action::TxReaderInside { ops: ops.as_array().unwrap().iter().map(OpSpec::from_json).collect(), commit: v["end"].as_str() == Some("commit") };
         }
         if let Some(ops) = v.get("tx") {
             return Action::Tx { ops: ops.as_array().unwrap().iter().map(OpSpec::from_json).collect(), commit: v["end"].as_str() == Some("commit") };
@@ -181,6 +188,8 @@ pub struct Runner {
     pub fault_next_commit: Option<crate::iosim::Fault>,
     /// count the I/O calls of the next commit without injecting anything
     pub count_next_commit: bool,
+    /// the next write transaction opens a long-lived reader before it ends
+    pub reader_inside_next_tx: bool,
     pub last_commit_kinds: Vec<crate::iosim::Kind>,
     pub last_fault_fired: bool,
     /// set when a commit with an injected fault returned an error: the state it would have produced
@@ -259,6 +268,7 @@ impl Runner {
             last_report: None,
             fault_next_commit: None,
             count_next_commit: false,
+            reader_inside_next_tx: false,
             last_commit_kinds: vec![],
             last_fault_fired: false,
             pending_post: None,
@@ -287,6 +297,7 @@ impl Runner {
             last_report: None,
             fault_next_commit: None,
             count_next_commit: false,
+            reader_inside_next_tx: false,
             last_commit_kinds: vec![],
             last_fault_fired: false,
             pending_post: None,
@@ -518,6 +529,16 @@ impl Runner {
                     }
                     return out;
                 }
+                if std::mem::take(&mut self.reader_inside_next_tx) {
+                    match guarded(|| db.tx(false)) {
+                        Ok(Ok(rtx)) => {
+                            let id = self.stats.commits;
+                            self.readers.push((rtx, self.model.clone(), id));
+                        }
+                        Ok(Err(e)) => out.push(Violation::new("tx_begin_error", format!("read-only begin while a write transaction is open: {:?}", e))),
+                        Err(p) => out.push(Violation::new(panic_class("tx_begin_panic", &p), p)),
+                    }
+                }
                 if or.dump_in_tx {
                     match real::dump_tx(&tx) {
                         Ok(d) => {
@@ -745,6 +766,13 @@ impl Runner {
                     }
                 }
                 self.check_committed_state(or, &what, &mut out);
+            }
+            Action::TxReaderInside { ops, commit } => {
+                self.reader_inside_next_tx = true;
+                let inner = self.step(&Action::Tx { ops: ops.clone(), commit: *commit }, or);
+                self.reader_inside_next_tx = false;
+                // (the inner step has already re-dumped the readers if asked to)
+                return inner;
             }
             Action::OpenReader => {
                 let db = self.db_static();
